@@ -114,9 +114,11 @@ impl JwtManager {
 
     pub async fn delete_expired_revoked_tokens(&self, now: u64) -> Result<(), IggyError> {
         let mut tokens_to_delete = Vec::new();
+        // A token is accepted until `exp + clock_skew` (the validation leeway): its revocation has to be kept that long.
+        let leeway = self.validator.clock_skew.as_secs() as u64;
         let revoked_tokens = self.revoked_tokens.read().await;
         for (id, expiry) in revoked_tokens.iter() {
-            if expiry <= &now {
+            if now >= leeway && *expiry < now - leeway {
                 tokens_to_delete.push(id.to_string());
             }
         }
